@@ -70,7 +70,7 @@ func famHist(out string) {
 		}
 		rng := hutil.NewRng(1000 + uint64(i))
 		w := worldFromShared(rng, 5)
-		p := HistParams{Steps: steps - 8 + rng.Intn(16), Wallets: 5, PBadTx: 10, PCorrupt: 10, PFork: 20, PReorg: 12, DumpEvery: 7}
+		p := HistParams{Steps: steps - 8 + rng.Intn(16), Wallets: 5, PBadTx: 10, PCorrupt: 10, PFork: 20, PReorg: 12, DumpEvery: 7, Crashes: 2}
 		switch i % 6 {
 		case 1:
 			p.PFork = 45 // fork heavy
